@@ -664,19 +664,18 @@ def startsText : List Node → Bool
 theorem onText_blank (c : SeqCfg) (S : Strconv) (hc : CfgOk c) (na : Entries) (seq : Nat) (s : Str)
     (hb : isBlankText c s = true) :
     SeqFold.onText c S na seq none s = (na, seq, some (s, false)) := by
-  have : (escDecIf c.dec (trimChars (trimSet c.dec) ([] ++ s))).isEmpty = true := by
+  have : (escDecIf c.dec (trimChars (trimSet c.dec) s)).isEmpty = true := by
     rw [escDecIf_off c hc.escDec]; exact hb
-  simp only [SeqFold.onText, this, if_true, List.nil_append]
+  simp only [SeqFold.onText, List.nil_append, this, if_true]
 
 theorem onText_first (c : SeqCfg) (S : Strconv) (hc : CfgOk c) (na : Entries) (seq : Nat) (s : Str)
     (hb : isBlankText c s = false) :
     SeqFold.onText c S na seq none s
       = (insert c.seqK (seqNum seq) (insert c.textK (.str (seqTrim c s)) na), seq + 1,
           some (s, true)) := by
-  have : (escDecIf c.dec (trimChars (trimSet c.dec) ([] ++ s))).isEmpty = false := by
-    rw [escDecIf_off c hc.escDec]; exact hb
-  simp only [SeqFold.onText, this, Bool.false_eq_true, if_false, List.nil_append,
-    cast_off S c.cast hc.castOff, escDecIf_off c hc.escDec, seqTrim]
+  have : (trimChars (trimSet c.dec) s).isEmpty = false := hb
+  simp only [SeqFold.onText, List.nil_append, escDecIf_off c hc.escDec, this, Bool.false_eq_true,
+    if_false, cast_off S c.cast hc.castOff, seqTrim]
 
 theorem addChild_of_none (na : Entries) (k : Str) (v : Val) (h : lookup k na = none) :
     addChild na k v = insert k v na := by
@@ -765,6 +764,468 @@ theorem kids'_items (c : SeqCfg) (S : Strconv) (hc : CfgOk c) : ∀ (kids : List
         exact c2 (by simpa [nComments] using h)
       · intro h; rw [lookup_insert, if_neg hc.dp]
         exact d2 (by simpa [nDirectives] using h)
+
+/-! ### (3d) attributes -/
+
+/-- the `#attr` map of an element whose attributes have distinct qualified names -/
+def attrEntries (c : SeqCfg) : Nat → List Attr → Entries
+  | _, [] => []
+  | i, a :: as =>
+      (qualName c a.space a.name, .map [(c.textK, .str a.value), (c.seqK, seqNum i)])
+        :: attrEntries c (i + 1) as
+
+theorem keys_attrEntries (c : SeqCfg) : ∀ (attrs : List Attr) (i : Nat),
+    keys (attrEntries c i attrs) = attrQNames c attrs
+  | [], _ => rfl
+  | a :: as, i => by
+      simp only [attrEntries, keys_cons', attrQNames, List.map_cons, List.cons.injEq, true_and]
+      exact keys_attrEntries c as (i + 1)
+
+theorem seqAttrs_eq (c : SeqCfg) (S : Strconv) (hc : CfgOk c) : ∀ (attrs : List Attr) (i : Nat)
+    (acc : Entries), distinctStrs (attrQNames c attrs) = true →
+    (∀ k ∈ attrQNames c attrs, k ∉ keys acc) →
+    seqAttrs c S i attrs acc = acc ++ attrEntries c i attrs
+  | [], i, acc, _, _ => by simp [seqAttrs, attrEntries]
+  | a :: as, i, acc, hd, hk => by
+      simp only [attrQNames, List.map_cons, distinctStrs, Bool.and_eq_true, Bool.not_eq_true',
+        List.contains_eq_mem, decide_eq_false_iff_not] at hd
+      have h1 : qualName c a.space a.name ∉ keys acc := hk _ (by simp [attrQNames])
+      simp only [seqAttrs, attrEntries, escDecIf_off c hc.escDec, cast_off S c.cast hc.castOff,
+        insert_absent _ _ acc h1]
+      rw [seqAttrs_eq c S hc as (i + 1) _ hd.2]
+      · simp
+      · intro k hk' hm
+        rw [keys_append', List.mem_append] at hm
+        rcases hm with hm | hm
+        · exact hk k (by simp only [attrQNames, List.map_cons, List.mem_cons]; exact .inr hk') hm
+        · simp only [keys, List.map_cons, List.map_nil, List.mem_singleton] at hm
+          subst hm
+          exact hd.1 hk'
+
+theorem seqInitNa_eq (c : SeqCfg) (S : Strconv) (hc : CfgOk c) (attrs : List Attr)
+    (hd : distinctStrs (attrQNames c attrs) = true) :
+    seqInitNa c S attrs
+      = if attrs.isEmpty then [] else [(c.attrK, .map (attrEntries c 0 attrs))] := by
+  unfold seqInitNa
+  rw [seqAttrs_eq c S hc attrs 0 [] hd (by simp [keys])]
+  simp
+
+theorem attrEntries_seqs (c : SeqCfg) (hc : CfgOk c) : ∀ (attrs : List Attr) (i : Nat),
+    (attrEntries c i attrs).map (fun e => seqOf c e.2) = List.range' i attrs.length
+  | [], _ => by simp [attrEntries]
+  | a :: as, i => by
+      have h := seqOf_noteVal c hc.ts a.value i
+      unfold noteVal at h
+      simp only [attrEntries, List.map_cons, List.length_cons, List.range'_succ, h,
+        attrEntries_seqs c hc as (i + 1)]
+
+theorem attrEntries_pairwise (c : SeqCfg) (hc : CfgOk c) (attrs : List Attr) (i : Nat) :
+    (attrEntries c i attrs).Pairwise (fun a b => seqOf c a.2 < seqOf c b.2) := by
+  have h : ((attrEntries c i attrs).map (fun e => seqOf c e.2)).Pairwise (· < ·) := by
+    rw [attrEntries_seqs c hc]; exact List.pairwise_lt_range'
+  exact List.pairwise_map.1 h
+
+theorem seqAttrNodes_attrEntries (c : SeqCfg) : ∀ (attrs : List Attr) (i : Nat),
+    seqAttrNodes c (attrEntries c i attrs) = .ok (attrs.map (qualAttr c))
+  | [], _ => rfl
+  | a :: as, i => by
+      simp only [attrEntries, seqAttrNodes, seqAttrNode, lookup, if_true,
+        seqAttrNodes_attrEntries c as (i + 1), List.map_cons, qualAttr]
+
+/-! ### (3e) the normal form of a decoded element -/
+
+/-- the element's text: the trimmed leading text node, if not blank -/
+def leadText (c : SeqCfg) : List Node → Option Str
+  | .text s :: _ => if isBlankText c s then none else some (seqTrim c s)
+  | _ => none
+
+def textPart (c : SeqCfg) (kids : List Node) : Entries :=
+  match leadText c kids with
+  | some t => [(c.textK, .str t), (c.seqK, seqNum 0)]
+  | none => []
+
+/-- the decorated non-text children: numbered from 1 behind a text, from 0 otherwise -/
+def itemsOf (c : SeqCfg) (S : Strconv) (kids : List Node) : List (Str × Val) :=
+  items c S (if (leadText c kids).isSome then 1 else 0) kids
+
+structure DomParts (c : SeqCfg) (sp name : Str) (attrs : List Attr) (kids : List Node) : Prop where
+  key : qualName c sp name ∉ hashKeys c
+  attrs : distinctStrs (attrQNames c attrs) = true
+  nc : nComments kids ≤ 1
+  nd : nDirectives kids ≤ 1
+  np : nProcinsts kids ≤ 1
+  adj : noAdjTop kids = true
+  tf : textFirst c kids = true
+  kids : seqDomainKids c kids = true
+
+theorem seqDomain_parts {c : SeqCfg} {sp name : Str} {attrs : List Attr} {kids : List Node}
+    (h : seqDomain c (.elem sp name attrs kids) = true) : DomParts c sp name attrs kids := by
+  simp only [seqDomain, Bool.and_eq_true, Bool.not_eq_true', List.contains_eq_mem,
+    decide_eq_false_iff_not, decide_eq_true_eq] at h
+  obtain ⟨⟨⟨⟨⟨⟨⟨h1, h2⟩, h3⟩, h4⟩, h5⟩, h6⟩, h7⟩, h8⟩ := h
+  exact ⟨h1, h2, h3, h4, h5, h6, h7, h8⟩
+
+theorem form_core (c : SeqCfg) (S : Strconv) (hc : CfgOk c) (P : Entries)
+    (hP : ∀ k ∈ keys P, k = c.attrK ∨ k = c.textK ∨ k = c.seqK)
+    (kids : List Node) (seq : Nat) (pend : Option (Str × Bool))
+    (ht : noText c kids = true) (ha : noAdjTop kids = true)
+    (hp : pend = none ∨ startsText kids = false) (hd : seqDomainKids c kids = true)
+    (c1 : nComments kids ≤ 1) (d1 : nDirectives kids ≤ 1) (p1 : nProcinsts kids ≤ 1) :
+    (SeqFold.kids' c S (P, seq, pend) kids).1 = P ++ addAll [] (items c S seq kids) := by
+  have hnone : ∀ k, k ≠ c.attrK → k ≠ c.textK → k ≠ c.seqK → lookup k P = none := by
+    intro k h1 h2 h3
+    apply lookup_none_of_not_mem
+    intro hm
+    rcases hP k hm with h | h | h
+    · exact h1 h
+    · exact h2 h
+    · exact h3 h
+  rw [kids'_items c S hc kids P seq pend ht ha hp hd c1
+    (fun _ => hnone _ hc.ac.symm hc.tc.symm hc.sc.symm) d1
+    (fun _ => hnone _ hc.ad.symm hc.td.symm hc.sd.symm) p1
+    (fun _ => hnone _ hc.ap.symm hc.tp.symm hc.sp.symm)]
+  have := addAll_append_left P (items c S seq kids) [] (by
+    intro e he hm
+    have hk := items_keys c S hc kids seq hd e he
+    rcases hP _ hm with h | h | h
+    · exact hk.2.2 h
+    · exact hk.1 h
+    · exact hk.2.1 h)
+  rwa [List.append_nil] at this
+
+theorem keys_seqInitNa (c : SeqCfg) (S : Strconv) (attrs : List Attr) :
+    ∀ k ∈ keys (seqInitNa c S attrs), k = c.attrK := by
+  intro k hk
+  unfold seqInitNa at hk
+  split at hk
+  · simp [keys] at hk
+  · simpa [keys] using hk
+
+theorem items_text (c : SeqCfg) (S : Strconv) (seq : Nat) (s : Str) (rest : List Node) :
+    items c S seq (.text s :: rest) = items c S seq rest := rfl
+
+/-- goal 2, structural part: `#attr` entry, text entries, grouped children -/
+theorem entries_form (c : SeqCfg) (S : Strconv) (hc : CfgOk c) (sp name : Str) (attrs : List Attr)
+    (kids : List Node) (hd : seqDomain c (.elem sp name attrs kids) = true) :
+    (SeqFold.kids' c S (seqInitNa c S attrs, 0, none) kids).1
+      = seqInitNa c S attrs ++ textPart c kids ++ addAll [] (itemsOf c S kids) := by
+  have dp := seqDomain_parts hd
+  have hA := keys_seqInitNa c S attrs
+  have hA' : ∀ k ∈ keys (seqInitNa c S attrs), k = c.attrK ∨ k = c.textK ∨ k = c.seqK :=
+    fun k hk => .inl (hA k hk)
+  have generic : startsText kids = false →
+      (SeqFold.kids' c S (seqInitNa c S attrs, 0, none) kids).1
+        = seqInitNa c S attrs ++ textPart c kids ++ addAll [] (itemsOf c S kids) := by
+    intro hs
+    have hl : leadText c kids = none := by
+      cases kids with
+      | nil => rfl
+      | cons k r => cases k <;> simp_all [startsText, leadText]
+    have htf : noText c kids = true := by
+      have := dp.tf
+      cases kids with
+      | nil => rfl
+      | cons k r => cases k <;> simp_all [startsText, textFirst]
+    rw [form_core c S hc _ hA' kids 0 none htf dp.adj (.inl rfl) dp.kids dp.nc dp.nd dp.np]
+    simp [textPart, itemsOf, hl]
+  cases kids with
+  | nil => exact generic rfl
+  | cons k rest =>
+    cases k with
+    | elem _ _ _ _ => exact generic rfl
+    | comment _ => exact generic rfl
+    | directive _ => exact generic rfl
+    | procinst _ _ => exact generic rfl
+    | text s =>
+      have htf : noText c rest = true := by simpa [textFirst] using dp.tf
+      have hadj := noAdjTop_text dp.adj
+      have hk : seqDomainKids c rest = true := by simpa [seqDomainKids] using dp.kids
+      have c1 : nComments rest ≤ 1 := by simpa [nComments] using dp.nc
+      have d1 : nDirectives rest ≤ 1 := by simpa [nDirectives] using dp.nd
+      have p1 : nProcinsts rest ≤ 1 := by simpa [nProcinsts] using dp.np
+      by_cases hb : isBlankText c s = true
+      · simp only [SeqFold.kids', onText_blank c S hc _ 0 s hb]
+        rw [form_core c S hc _ hA' rest 0 _ htf hadj.2 (.inr hadj.1) hk c1 d1 p1]
+        simp [textPart, itemsOf, leadText, hb, items_text]
+      · have hb' : isBlankText c s = false := by simpa using hb
+        have ht1 : c.textK ∉ keys (seqInitNa c S attrs) := fun hm => hc.ta (hA _ hm)
+        have hs1 : c.seqK ∉ keys (seqInitNa c S attrs ++ [(c.textK, .str (seqTrim c s))]) := by
+          rw [keys_append', List.mem_append]
+          rintro (hm | hm)
+          · exact hc.sa (hA _ hm)
+          · simp only [keys, List.map_cons, List.map_nil, List.mem_singleton] at hm
+            exact hc.ts hm.symm
+        simp only [SeqFold.kids', onText_first c S hc _ 0 s hb', insert_absent _ _ _ ht1,
+          insert_absent _ _ _ hs1]
+        rw [form_core c S hc _ ?_ rest 1 _ htf hadj.2 (.inr hadj.1) hk c1 d1 p1]
+        · simp [textPart, itemsOf, leadText, hb', items_text]
+        · intro k hm
+          rw [keys_append', keys_append', List.mem_append, List.mem_append] at hm
+          rcases hm with (hm | hm) | hm
+          · exact .inl (hA k hm)
+          · exact .inr (.inl (by simpa [keys] using hm))
+          · exact .inr (.inr (by simpa [keys] using hm))
+
+/-! ### (4a) the encoder on a map, staged -/
+
+/-- `seqEncTree` on a map after the attributes have been read -/
+def encBody (key : Str) (as : List Attr) (hv seqOK : Bool) (n : Nat) (ot : Option Val)
+    (ko : Outcome (List Node)) : Outcome (List Node) :=
+  match ot with
+  | some tv =>
+    if ((n = 3 && hv) || (n = 2 && !hv)) && seqOK then
+      match fmtV tv with
+      | some t => .ok [.elem [] key as (textKid t)]
+      | none => .err .other
+    else
+      match fmtV tv, ko with
+      | some t, .ok kids => .ok [.elem [] key as (textKid t ++ kids)]
+      | none, _ => .err .other
+      | _, o => o
+  | none =>
+    if ((n = 2 && hv) || (n = 1 && !hv)) && seqOK then .ok [.elem [] key as []]
+    else match ko with
+      | .ok kids => .ok [.elem [] key as kids]
+      | o => o
+
+theorem seqEncTree_map_noattr (c : SeqCfg) (f : Nat) (key : Str) (val : Entries)
+    (h1 : key ≠ c.commentK) (h2 : key ≠ c.directiveK) (h3 : key ≠ c.procinstK)
+    (ha : lookup c.attrK val = none) :
+    seqEncTree c (f + 1) key (.map val)
+      = encBody key [] false (lookup c.seqK val).isSome val.length (lookup c.textK val)
+          (seqKidsTree c f (sortBySeq c (unrollEntries c val))) := by
+  simp only [seqEncTree, h1, h2, h3, if_false, ha, encBody]
+  rfl
+
+theorem seqEncTree_map_attr (c : SeqCfg) (f : Nat) (key : Str) (val av : Entries) (as : List Attr)
+    (h1 : key ≠ c.commentK) (h2 : key ≠ c.directiveK) (h3 : key ≠ c.procinstK)
+    (ha : lookup c.attrK val = some (.map av))
+    (has : seqAttrNodes c (sortBySeq c av) = .ok as) :
+    seqEncTree c (f + 1) key (.map val)
+      = encBody key as true (lookup c.seqK val).isSome val.length (lookup c.textK val)
+          (seqKidsTree c f (sortBySeq c (unrollEntries c val))) := by
+  simp only [seqEncTree, h1, h2, h3, if_false, ha, has, encBody]
+  rfl
+
+theorem encBody_text (key : Str) (as : List Attr) (hv : Bool) (a g : Nat) (t : Str)
+    (K : List Node) (ha : a = 0 ∨ a = 1) (hh : hv = decide (a = 1)) (ht : t ≠ [])
+    (hK : g = 0 → K = []) :
+    encBody key as hv true (a + 2 + g) (some (.str t)) (.ok K)
+      = .ok [.elem [] key as (.text t :: K)] := by
+  have hte : t.isEmpty = false := by cases t <;> simp_all
+  rcases ha with rfl | rfl <;> subst hh <;> rcases g with _ | g
+  · simp [encBody, fmtV, textKid, hte, hK rfl]
+  · simp [encBody, fmtV, textKid, hte]
+  · simp [encBody, fmtV, textKid, hte, hK rfl]
+  · simp [encBody, fmtV, textKid, hte]
+
+theorem encBody_none (key : Str) (as : List Attr) (hv sq : Bool) (a g : Nat)
+    (K : List Node) (ha : a = 0 ∨ a = 1) (hh : hv = decide (a = 1)) (hK : g = 0 → K = []) :
+    encBody key as hv sq (a + g + (if sq then 1 else 0)) none (.ok K)
+      = .ok [.elem [] key as K] := by
+  rcases ha with rfl | rfl <;> subst hh <;> rcases g with _ | g <;> cases sq <;>
+    simp [encBody] <;> first | exact (hK rfl) | exact (hK rfl).symm | omega
+
+theorem encBody_empty (key : Str) (ko : Outcome (List Node)) :
+    encBody key [] false true 2 (some (.str [])) ko = .ok [.elem [] key [] []] := by
+  simp [encBody, fmtV, textKid]
+
+/-! ### (4b) what the encoder sees of a decoded element's map -/
+
+theorem lookup_append_none (k : Str) : ∀ (P G : Entries), lookup k G = none →
+    lookup k (P ++ G) = lookup k P
+  | [], G, h => by simpa [lookup] using h
+  | (k', v') :: P, G, h => by
+      by_cases e : k = k'
+      · simp only [List.cons_append, lookup, e, if_true]
+      · simp only [List.cons_append, lookup, e, if_false]
+        exact lookup_append_none k P G h
+
+theorem length_insert (k : Str) (v : Val) : ∀ (l : Entries),
+    (insert k v l).length = l.length + (if (lookup k l).isSome then 0 else 1)
+  | [] => by simp [insert, lookup]
+  | (k', v') :: l => by
+      by_cases e : k = k'
+      · simp [insert, lookup, e]
+      · simp only [insert, lookup, e, if_false, List.length_cons, length_insert k v l]
+        omega
+
+theorem unrollEntries_insert_dropped (c : SeqCfg) (k : Str) (v : Val) (hk : dropK c k = true) :
+    ∀ (l : Entries), unrollEntries c (insert k v l) = unrollEntries c l
+  | [] => by simp [insert, unrollEntries_cons, hk]
+  | (k', v') :: l => by
+      by_cases e : k = k'
+      · subst e
+        simp only [insert, if_true, unrollEntries_cons, hk]
+      · simp only [insert, e, if_false, unrollEntries_cons,
+          unrollEntries_insert_dropped c k v hk l]
+
+structure View (c : SeqCfg) (val P G : Entries) (sq : Bool) (n : Nat) : Prop where
+  attr : lookup c.attrK val = lookup c.attrK P
+  text : lookup c.textK val = lookup c.textK P
+  seq : (lookup c.seqK val).isSome = sq
+  len : val.length = n
+  unroll : unrollEntries c val = unrollEntries c G
+
+theorem view_root (c : SeqCfg) (P G : Entries)
+    (hGt : lookup c.textK G = none) (hGs : lookup c.seqK G = none) (hGa : lookup c.attrK G = none)
+    (hP : ∀ k ∈ keys P, dropK c k = true) :
+    View c (P ++ G) P G (lookup c.seqK P).isSome (P.length + G.length) where
+  attr := lookup_append_none _ P G hGa
+  text := lookup_append_none _ P G hGt
+  seq := by rw [lookup_append_none _ P G hGs]
+  len := by simp
+  unroll := by rw [unrollEntries_append, unrollEntries_dropped c P hP]; rfl
+
+theorem view_child (c : SeqCfg) (hc : CfgOk c) (P G : Entries) (v : Val)
+    (hGt : lookup c.textK G = none) (hGs : lookup c.seqK G = none) (hGa : lookup c.attrK G = none)
+    (hP : ∀ k ∈ keys P, dropK c k = true) :
+    View c (insert c.seqK v (P ++ G)) P G true
+      (P.length + G.length + (if (lookup c.seqK P).isSome then 0 else 1)) where
+  attr := by rw [lookup_insert, if_neg hc.sa.symm]; exact lookup_append_none _ P G hGa
+  text := by rw [lookup_insert, if_neg hc.ts]; exact lookup_append_none _ P G hGt
+  seq := by rw [lookup_insert]; simp
+  len := by rw [length_insert, lookup_append_none _ P G hGs]; simp
+  unroll := by
+    rw [unrollEntries_insert_dropped c _ _ (by simp [dropK]), unrollEntries_append,
+      unrollEntries_dropped c P hP]; rfl
+
+theorem enc_of_view (c : SeqCfg) (f : Nat) (key : Str) (val P G : Entries) (sq : Bool) (n : Nat)
+    (h1 : key ≠ c.commentK) (h2 : key ≠ c.directiveK) (h3 : key ≠ c.procinstK)
+    (V : View c val P G sq n) (as : List Attr) (hv : Bool)
+    (hAttr : (lookup c.attrK P = none ∧ as = [] ∧ hv = false)
+      ∨ (∃ av, lookup c.attrK P = some (.map av) ∧ seqAttrNodes c (sortBySeq c av) = .ok as
+          ∧ hv = true))
+    (its : List (Str × Val)) (K : List Node)
+    (hsort : sortBySeq c (unrollEntries c G) = its) (hK : seqKidsTree c f its = .ok K) :
+    seqEncTree c (f + 1) key (.map val) = encBody key as hv sq n (lookup c.textK P) (.ok K) := by
+  rcases hAttr with ⟨ha, rfl, rfl⟩ | ⟨av, ha, has, rfl⟩
+  · rw [seqEncTree_map_noattr c f key val h1 h2 h3 (V.attr.trans ha), V.seq, V.len, V.text,
+      V.unroll, hsort, hK]
+  · rw [seqEncTree_map_attr c f key val av as h1 h2 h3 (V.attr.trans ha) has, V.seq, V.len, V.text,
+      V.unroll, hsort, hK]
+
+/-- the text entries of a decoded element -/
+def textEntries (c : SeqCfg) (ot : Option Str) : Entries :=
+  match ot with
+  | some t => [(c.textK, .str t), (c.seqK, seqNum 0)]
+  | none => []
+
+def textNodes (ot : Option Str) : List Node :=
+  match ot with
+  | some t => [.text t]
+  | none => []
+
+/-- the encoder on the normal form `A ++ T ++ G` of a decoded element (as the root and as a
+    child carrying sequence number `n`) -/
+theorem enc_val (c : SeqCfg) (hc : CfgOk c) (f : Nat) (key : Str) (hkey : key ∉ hashKeys c)
+    (A : Entries) (as : List Attr)
+    (hA : (A = [] ∧ as = [])
+      ∨ (∃ av, A = [(c.attrK, .map av)] ∧ seqAttrNodes c (sortBySeq c av) = .ok as))
+    (ot : Option Str) (hot : ∀ t, ot = some t → t ≠ [])
+    (G : Entries) (its : List (Str × Val)) (K : List Node)
+    (hGt : lookup c.textK G = none) (hGs : lookup c.seqK G = none) (hGa : lookup c.attrK G = none)
+    (hsort : sortBySeq c (unrollEntries c G) = its)
+    (hK : seqKidsTree c f its = .ok K) (hGe : G = [] → its = []) :
+    seqEncTree c (f + 1) key (SeqFold.finish (A ++ textEntries c ot ++ G))
+        = .ok [.elem [] key as (textNodes ot ++ K)]
+    ∧ ∀ n, seqEncTree c (f + 1) key (seqChild c n (SeqFold.finish (A ++ textEntries c ot ++ G)))
+        = .ok [.elem [] key as (textNodes ot ++ K)] := by
+  have hk := not_hash hkey
+  have hK0 : G.length = 0 → K = [] := by
+    intro h
+    have hG : G = [] := List.eq_nil_of_length_eq_zero h
+    rw [hGe hG] at hK
+    simp only [seqKidsTree] at hK
+    cases hK; rfl
+  -- the prefix P = A ++ T
+  have hP : ∀ k ∈ keys (A ++ textEntries c ot), dropK c k = true := by
+    intro k hm
+    rw [keys_append', List.mem_append] at hm
+    rcases hm with hm | hm
+    · rcases hA with ⟨rfl, _⟩ | ⟨av, rfl, _⟩
+      · simp [keys] at hm
+      · simp only [keys, List.map_cons, List.map_nil, List.mem_singleton] at hm
+        simp [dropK, hm]
+    · cases ot with
+      | none => simp [textEntries, keys] at hm
+      | some t =>
+        simp only [textEntries, keys, List.map_cons, List.map_nil, List.mem_cons,
+          List.not_mem_nil, or_false] at hm
+        rcases hm with hm | hm <;> simp [dropK, hm]
+  -- the attribute view
+  obtain ⟨a, ha01, hlen, hAttr⟩ : ∃ a : Nat, (a = 0 ∨ a = 1) ∧ A.length = a ∧
+      ((lookup c.attrK (A ++ textEntries c ot) = none ∧ as = [] ∧ decide (a = 1) = false)
+      ∨ (∃ av, lookup c.attrK (A ++ textEntries c ot) = some (.map av)
+          ∧ seqAttrNodes c (sortBySeq c av) = .ok as ∧ decide (a = 1) = true)) := by
+    rcases hA with ⟨rfl, rfl⟩ | ⟨av, rfl, has⟩
+    · refine ⟨0, .inl rfl, rfl, .inl ⟨?_, rfl, by decide⟩⟩
+      cases ot <;> simp [textEntries, lookup, hc.ta.symm, hc.sa.symm]
+    · exact ⟨1, .inr rfl, rfl, .inr ⟨av, by simp [lookup], has, by decide⟩⟩
+  rw [List.append_assoc] at *
+  cases ot with
+  | some t =>
+    have ht := hot t rfl
+    have hne : (A ++ (textEntries c (some t) ++ G)).isEmpty = false := by
+      cases A <;> simp [textEntries]
+    have hlt : lookup c.textK (A ++ textEntries c (some t)) = some (.str t) := by
+      rcases hA with ⟨rfl, _⟩ | ⟨av, rfl, _⟩ <;> simp [textEntries, lookup, hc.ta]
+    have hls : (lookup c.seqK (A ++ textEntries c (some t))).isSome = true := by
+      rcases hA with ⟨rfl, _⟩ | ⟨av, rfl, _⟩ <;>
+        simp [textEntries, lookup, hc.sa, hc.ts.symm]
+    have hPl : (A ++ textEntries c (some t)).length = a + 2 := by
+      simp [textEntries, hlen]
+    simp only [SeqFold.finish, hne, Bool.false_eq_true, if_false, seqChild]
+    rw [← List.append_assoc]
+    constructor
+    · have V := view_root c (A ++ textEntries c (some t)) G hGt hGs hGa hP
+      rw [enc_of_view c f key _ _ _ _ _ hk.2.2.2.1 hk.2.2.2.2.1 hk.2.2.2.2.2 V as _ hAttr its K
+        hsort hK, hlt, hls, hPl]
+      exact encBody_text key as _ a G.length t K ha01 rfl ht hK0
+    · intro n
+      have V := view_child c hc (A ++ textEntries c (some t)) G (seqNum n) hGt hGs hGa hP
+      rw [enc_of_view c f key _ _ _ _ _ hk.2.2.2.1 hk.2.2.2.2.1 hk.2.2.2.2.2 V as _ hAttr its K
+        hsort hK, hlt, hls, hPl]
+      exact encBody_text key as _ a G.length t K ha01 rfl ht hK0
+  | none =>
+    have hlt : lookup c.textK (A ++ textEntries c none) = none := by
+      rcases hA with ⟨rfl, _⟩ | ⟨av, rfl, _⟩ <;> simp [textEntries, lookup, hc.ta]
+    have hls : (lookup c.seqK (A ++ textEntries c none)).isSome = false := by
+      rcases hA with ⟨rfl, _⟩ | ⟨av, rfl, _⟩ <;> simp [textEntries, lookup, hc.sa]
+    have hPl : (A ++ textEntries c none).length = a := by simp [textEntries, hlen]
+    by_cases hne : (A ++ (textEntries c none ++ G)).isEmpty = true
+    · -- nothing at all: the empty string
+      have hAG : A = [] ∧ G = [] := by
+        simpa [textEntries] using hne
+      obtain ⟨rfl, rfl⟩ := hAG
+      have has : as = [] := by
+        rcases hA with ⟨_, h⟩ | ⟨av, h, _⟩
+        · exact h
+        · cases h
+      subst has
+      have hK' : K = [] := hK0 rfl
+      subst hK'
+      simp only [SeqFold.finish, hne, if_true, seqChild, textNodes, List.append_nil]
+      constructor
+      · simp [seqEncTree, textKid]
+      · intro n
+        rw [seqEncTree_map_noattr c f key _ hk.2.2.2.1 hk.2.2.2.2.1 hk.2.2.2.2.2
+          (by simp [lookup, hc.ta.symm, hc.sa.symm])]
+        simp [lookup, hc.ts.symm, encBody_empty]
+    · simp only [SeqFold.finish, hne, Bool.false_eq_true, if_false, seqChild]
+      rw [← List.append_assoc]
+      constructor
+      · have V := view_root c (A ++ textEntries c none) G hGt hGs hGa hP
+        rw [enc_of_view c f key _ _ _ _ _ hk.2.2.2.1 hk.2.2.2.2.1 hk.2.2.2.2.2 V as _ hAttr its K
+          hsort hK, hlt, hls, hPl]
+        have := encBody_none key as (decide (a = 1)) false a G.length K ha01 rfl hK0
+        simpa [textNodes] using this
+      · intro n
+        have V := view_child c hc (A ++ textEntries c none) G (seqNum n) hGt hGs hGa hP
+        rw [enc_of_view c f key _ _ _ _ _ hk.2.2.2.1 hk.2.2.2.2.1 hk.2.2.2.2.2 V as _ hAttr its K
+          hsort hK, hlt, hls, hPl]
+        have := encBody_none key as (decide (a = 1)) true a G.length K ha01 rfl hK0
+        simpa [textNodes] using this
 
 end SeqL
 end Mxj
